@@ -8,6 +8,7 @@ from jedi.inference.lazy_value import LazyKnownValue, \
     LazyTreeValue, LazyUnknownValue
 from jedi.inference.value import iterable
 from jedi.inference.names import ParamName
+from jedi.parser_utils import get_function_name
 
 
 def _add_argument_issue(error_name, lazy_value, message):
@@ -121,7 +122,7 @@ def get_executed_param_names_and_issues(function_value, arguments):
                 if key in keys_used:
                     had_multiple_value_error = True
                     m = ("TypeError: %s() got multiple values for keyword argument '%s'."
-                         % (funcdef.name, key))
+                         % (get_function_name(funcdef), key))
                     for contextualized_node in arguments.get_calling_nodes():
                         issues.append(
                             analysis.add(contextualized_node.context,
@@ -208,7 +209,7 @@ def get_executed_param_names_and_issues(function_value, arguments):
 
     for key, lazy_value in non_matching_keys.items():
         m = "TypeError: %s() got an unexpected keyword argument '%s'." \
-            % (funcdef.name, key)
+            % (get_function_name(funcdef), key)
         issues.append(
             _add_argument_issue(
                 'type-error-keyword-argument',
@@ -254,4 +255,4 @@ def _error_argument_count(funcdef, actual_count):
     else:
         before = 'from %s to ' % (len(params) - default_arguments)
     return ('TypeError: %s() takes %s%s arguments (%s given).'
-            % (funcdef.name, before, len(params), actual_count))
+            % (get_function_name(funcdef), before, len(params), actual_count))
